@@ -161,7 +161,53 @@ CLAIMS = [
         "design_ref": "DESIGN.md 6/C08, 9, 12",
         "note": "The monitored clauses are exploration, not proof; finding F4 (moved-from elements after a failed rebuild) is open and reported as KNOWN-FINDING.",
     },
+    {
+        "property_id": "C11",
+        "technique": "Lean 4 theorems on the member-by-member model of the special members + K2 multi-object full-state differential",
+        "text": "Props/C11.lean: a copy is a complete table state (Inv, same abstract map, same settings, same size) and independent of its source; "
+                "swap (as repaired) exchanges the complete state for EVERY pair of states incl. pending deferred migration and several lock-array "
+                "generations (Inv/Rel quantify over them); the shipped swap provably breaks the migration bookkeeping when one side has stripes "
+                "pending (swap_shipped_breaks_bookkeeping, finding F6). In the value model copy/move are identities, so the content of the claim "
+                "is WHICH members are transferred; that is tied by K2: copy/move construction and assignment (also onto moved-from objects), member "
+                "and ADL swap between populated tables in arbitrary states, followed by full-state digests, structural scans and workloads on all objects.",
+        "design_ref": "DESIGN.md 6/C11, 12",
+        "note": "Allocator propagation policies (unequal / propagating allocators) are not modelled and not exercised (the harness allocator is always-equal).",
+    },
+    {
+        "property_id": "C14",
+        "technique": "Lean 4: decided forwarding table generated from the wrapper's source + byte-level file-format theorems (round trip, every proper prefix rejected); K6 lock-step correspondence",
+        "text": "Props/C14.lean: capi_forwards (decide) — every extern-C entry point of the current source calls exactly the documented C++ member(s) and "
+                "there is no undocumented entry point (Gen/CApi.lean is regenerated by T-D: text scan cross-checked against clang's AST); "
+                "file_roundtrip and truncated_file_rejected are proved by induction for every pair list, key/value width and truncation point "
+                "on the byte-level model of _write/_read; read_builds_same_table via C02. K6 drives ~60 entry points in lock step with a C++ table "
+                "(return values, out-parameters, contents, both iteration directions, erase_it with it==nextit) and re-reads written files whole and at every byte offset.",
+        "design_ref": "DESIGN.md 6/C14, 12",
+        "note": "The behaviour of the forwarded members is C02/C09/C17; fread/fwrite are modelled as all-or-nothing per item on a byte list (short reads of a partial item fail).",
+    },
+    {
+        "property_id": "C15",
+        "technique": "Lean 4: decided catch-coverage / limit-reset facts on the table generated from the wrapper's source + model theorems; K6 allocation-fault sweeps with a catch-all sentinel",
+        "text": "Props/C15.lean: catches_cover_throws (decide over the regenerated table): every entry point that forwards to an allocating member or uses "
+                "`new` catches std::bad_alloc and sets errno=ENOMEM; init_and_read_disable_limits (was false for _read: finding F7, repaired); with both "
+                "limits disabled checkResize raises no policy exception; the handler-less members never fail in the model; a failed allocating "
+                "member leaves Inv and the contents (C07). K6: every C call wrapped in catch(...), k-th global allocation failing for every reachable k "
+                "(errno, failure value, contents, hashpower), key sets colliding in every small table.",
+        "design_ref": "DESIGN.md 6/C15, 12",
+        "note": "`load_factor() < 0` being false is an IEEE fact the kernel cannot evaluate (explicit hypothesis hlf); global operator new is interposed only in the K6 harness.",
+    },
+    {
+        "property_id": "C16",
+        "technique": "Lean 4 theorems on the model's argument-consumption flag for every table state + K5 observation with move-tracking argument types and heterogeneous probes",
+        "text": "Props/C16.lean: an inserting call consumes its arguments iff it inserts: never on a duplicate (whatever path — lazy migration, displacement, "
+                "expansion — preceded its discovery), never when the expansion fails, always (once, by the single add_to_bucket) on success, and the "
+                "stored pair is built from exactly those arguments. K5 passes rvalues of move-tracking key/value types to insert/insert_or_assign/upsert/"
+                "locked insert and checks moved-from flags against the result; lookups/updates/erasures through a different type with consistent hash "
+                "and transparent equality must agree with key_type and construct no key_type. PARTIAL: C++ value categories / perfect forwarding and "
+                "the heterogeneous-lookup clause are observed (K5), not modelled.",
+        "design_ref": "DESIGN.md 6/C16, 9, 12",
+        "note": "The heterogeneous clause has no theorem (the model has one key type).",
+    },
 ]
 
 _PENDING = "machinery not built yet in this round (planned: DESIGN.md section 6); not claimed until its check exists"
-NOT_APPLICABLE = [{"property_id": "C%02d" % i, "reason": _PENDING} for i in range(1, 18) if i not in (1, 2, 3, 4, 5, 6, 7, 8, 9, 10, 12, 13, 17)]
+NOT_APPLICABLE = []
